@@ -8,7 +8,7 @@
 import CedarGo.Driver.Ops.Core
 import CedarGo.Model.Text.Scanner
 namespace CedarGo.Driver
-open Lean CedarGo CedarGo.Text
+open Lean CedarGo CedarGo.Text CedarGo.Text.Lx
 
 def tokTypeCode : TokType → Nat
   | .eof => 0 | .ident => 1 | .int => 2 | .keyword => 3 | .string => 4 | .operator => 5 | .unknown => 6
